@@ -29,6 +29,10 @@ def main():
     name = os.path.splitext(os.path.basename(patch))[0][:40]
     base = "/tmp/bita-mut"
     os.makedirs(base, exist_ok=True)
+    # one mutant at a time: they share the private simulator copy
+    import fcntl
+    lock = open(os.path.join(base, "lock"), "w")
+    fcntl.flock(lock, fcntl.LOCK_EX)
     wt = os.path.join(base, name)
     out = tempfile.mkdtemp(prefix="mut-out-", dir=base)
     subprocess.run(["git", "-C", "/repo", "worktree", "remove", "--force", wt], capture_output=True)
